@@ -300,7 +300,7 @@ pub struct Download<'a> {
     pub reduce_at: Option<(usize, u8)>, // at block index j switch to smaller szx
 }
 
-fn run_download(cx: &mut Ctx, d: &Download, sess: &mut Session, check_release: bool) {
+pub fn run_download(cx: &mut Ctx, d: &Download, sess: &mut Session, check_release: bool) {
     let shape = d.shape;
     let mut mid = 100u16;
     let b2 = d.first_szx.map(|s| bv_bytes(0, false, s));
@@ -489,7 +489,7 @@ pub struct Upload<'a> {
     pub fresh_tokens: bool, // every delivery is its own exchange with a fresh token (RFC 7959 allows it)
 }
 
-fn run_upload(cx: &mut Ctx, u: &Upload, sess: &mut Session) {
+pub fn run_upload(cx: &mut Ctx, u: &Upload, sess: &mut Session) {
     let base_shape = u.shape;
     let mut shape_buf = base_shape.clone();
     let mut delivery = 0usize;
@@ -692,7 +692,7 @@ fn hostile_request(rng: &mut Rng, shapes: &[ReqShape]) -> (u8, PktSpec) {
     (ep, shape.spec(rng.below(65536) as u16, b1, b2, &payload))
 }
 
-fn run_hostile(cx: &mut Ctx, rng: &mut Rng, shapes: &[ReqShape]) {
+pub fn run_hostile(cx: &mut Ctx, rng: &mut Rng, shapes: &[ReqShape]) {
     let m = match rng.below(6) {
         0 => rng.below(65) as usize,
         1 => 1152,
@@ -774,7 +774,7 @@ fn run_hostile(cx: &mut Ctx, rng: &mut Rng, shapes: &[ReqShape]) {
 // ------------------------------------------------------------------ scenario D: interleavings (C12)
 
 #[derive(Clone)]
-struct Script {
+pub struct Script {
     ep: u8,
     steps: Vec<(PktSpec, Option<(Vec<(u16, Vec<u8>)>, Vec<u8>)>)>, // request, app reply if it reaches the app
 }
@@ -819,7 +819,7 @@ fn interleavings(a: usize, b: usize, f: &mut dyn FnMut(&[u8])) {
     rec(a, b, &mut vec![], f);
 }
 
-fn download_script(shape: &ReqShape, ep: u8, body: &[u8], szx: u8, midbase: u16) -> Script {
+pub fn download_script(shape: &ReqShape, ep: u8, body: &[u8], szx: u8, midbase: u16) -> Script {
     let size = 16usize << szx;
     let nblocks = (body.len() + size - 1) / size;
     let mut steps = vec![(shape.spec(midbase, None, Some(bv_bytes(0, false, szx)), &[]), Some((vec![(4u16, vec![midbase as u8])], body.to_vec())))];
@@ -831,7 +831,7 @@ fn download_script(shape: &ReqShape, ep: u8, body: &[u8], szx: u8, midbase: u16)
     Script { ep, steps }
 }
 
-fn upload_script(shape: &ReqShape, ep: u8, body: &[u8], szx: u8, midbase: u16) -> Script {
+pub fn upload_script(shape: &ReqShape, ep: u8, body: &[u8], szx: u8, midbase: u16) -> Script {
     let size = 16usize << szx;
     let chunks: Vec<&[u8]> = body.chunks(size).collect();
     let n = chunks.len();
@@ -844,7 +844,7 @@ fn upload_script(shape: &ReqShape, ep: u8, body: &[u8], szx: u8, midbase: u16) -
     Script { ep, steps }
 }
 
-fn run_interleavings(cx: &mut Ctx, s1: &Script, s2: &Script, m: usize) {
+pub fn run_interleavings(cx: &mut Ctx, s1: &Script, s2: &Script, m: usize) {
     // solo transcripts
     let solo = |sc: &Script| -> Vec<Vec<String>> {
         let mut sess = Session::new(m, 3_600_000);
@@ -886,7 +886,7 @@ fn run_interleavings(cx: &mut Ctx, s1: &Script, s2: &Script, m: usize) {
 
 // ------------------------------------------------------------------ scenario E: cache lifetime (C20)
 
-fn run_lifetime(cx: &mut Ctx, rng: &mut Rng, shapes: &[ReqShape]) {
+pub fn run_lifetime(cx: &mut Ctx, rng: &mut Rng, shapes: &[ReqShape]) {
     let ttl = *rng.pick(&[1000u64, 20, 60, 3_600_000]);
     let m = 64usize;
     let shape = &shapes[0];
@@ -984,15 +984,19 @@ fn run_reclaim(cx: &mut Ctx, shapes: &[ReqShape]) {
 
 // ------------------------------------------------------------------ driver
 
-pub fn run(cx: &mut Ctx) {
-    let thorough = cx.tier_thorough;
-    let mut rng = Rng(cx.seed ^ 0x424c4b);
-    let shapes: Vec<ReqShape> = vec![
+pub fn default_shapes() -> Vec<ReqShape> {
+    vec![
         ReqShape { typ: 0, code: 1, tok: vec![0xaa, 0xbb], path: vec![b"test".to_vec()], extra: vec![] },
         ReqShape { typ: 1, code: 3, tok: vec![], path: vec![b"a".to_vec(), b"b".to_vec()], extra: vec![] },
         ReqShape { typ: 0, code: 2, tok: vec![1, 2, 3, 4, 5, 6, 7, 8], path: vec![b"sensors".to_vec(), b"temperature".to_vec(), b"x".to_vec()], extra: vec![(15, b"q=1".to_vec())] },
         ReqShape { typ: 0, code: 1, tok: vec![9], path: vec![], extra: vec![(17, vec![50])] },
-    ];
+    ]
+}
+
+pub fn run(cx: &mut Ctx) {
+    let thorough = cx.tier_thorough;
+    let mut rng = Rng(cx.seed ^ 0x424c4b);
+    let shapes: Vec<ReqShape> = default_shapes();
 
     // ---- corpus: witnesses of D13..D16 and K1
     {
